@@ -146,7 +146,35 @@ def mp2_check(case):
     return ok, f"E0,E1,E2 = {e0},{e1},{e2}; textbook {ref0},{ref1},{ref2}"
 
 
+# --- norm factor: series of 1 / <Psi|Psi> ------------------------------------------------
+def nf_cases(tier, seed):
+    for n in range(0, 5 if tier == "quick" else 6):
+        for singles in (False, True):
+            yield {"n": n, "singles": singles}
+
+
+def nf_check(case):
+    """a^(n) = sum_k (-1)^k sum_{compositions of n into k parts >= 2} prod S^(part), with the
+    overlaps S^(m) requested separately; random amplitudes (complex conjugates aliased)"""
+    n = case["n"]
+    gs = GroundState(Operators("mp"), case["singles"])
+    model = Model(orbital_space(1, 1), seed=8, alias=lambda nm: nm.replace("cc", ""))
+    got = evaluate(gs.norm_factor(n), {}, model)
+    ovl = {m: evaluate(gs.overlap(m), {}, model) for m in range(2, n + 1)}
+    exp = Fraction(1 if n == 0 else 0)
+    for k in range(1, n // 2 + 1):
+        for comp in compositions(n, k, 2):
+            p = Fraction((-1) ** k)
+            for m in comp:
+                p *= ovl[m]
+            exp += p
+    return got == exp, f"norm_factor({n}) has value {got}, series of 1/(1 + S) gives {exp} (singles={case['singles']})"
+
+
 CHECKS = {
+    "norm_factor.series": {
+        "function": "adcgen.groundstate:GroundState.norm_factor", "cases": nf_cases, "check": nf_check,
+        "bound": "orders 0..4 (5), with / without first order singles; random amplitudes, 2 occ + 2 virt spin orbitals; overlaps requested separately"},
     "gen_term_orders.compositions": {
         "function": "adcgen.func:gen_term_orders", "cases": gto_cases, "check": gto_check,
         "bound": "order < 6 (9 thorough), term_length < 5, min_order < 4: exactly the compositions in itertools.product order"},
